@@ -203,6 +203,43 @@ def _check_eq(r2, ci, slots):
     r2.require(not missing, eqm, "__eq__ compares every slot", "%s.__eq__ does not compare %s" % (ci.name, missing))
     ic = any(isinstance(c, ast.Call) and dotted(c.func) == "isinstance" for c in ast.walk(eqm.node))
     r2.require(ic, eqm, "__eq__ type check", "%s.__eq__ has no isinstance check" % ci.name)
+    # polarity: with an object of the same class the field comparison must be reached, with a foreign object it must not
+    cfg = cfg_of(eqm.node)
+    cmp_rets = [n.id for n in cfg.nodes if n.kind == "return" and n.stmt.value is not None and any(isinstance(x, ast.Compare) and isinstance(x.ops[0], ast.Eq) and
+                                                                                                  isinstance(x.left, ast.Attribute) for x in ast.walk(n.stmt.value))]
+
+    def reach(same_class):
+        def ev(e):
+            if isinstance(e, ast.Call) and dotted(e.func) == "isinstance":
+                return same_class
+            if isinstance(e, ast.UnaryOp) and isinstance(e.op, ast.Not):
+                v = ev(e.operand)
+                return None if v is None else not v
+            if isinstance(e, ast.BoolOp):
+                vals = [ev(v) for v in e.values]
+                if isinstance(e.op, ast.Or):
+                    return True if any(v is True for v in vals) else (False if all(v is False for v in vals) else None)
+                return False if any(v is False for v in vals) else (True if all(v is True for v in vals) else None)
+            return None
+        seen = {cfg.entry}
+        stack = [cfg.entry]
+        while stack:
+            a = stack.pop()
+            for b, lab in cfg.succ[a]:
+                n = cfg.nodes[a]
+                if n.kind == "test" and isinstance(lab, bool):
+                    v = ev(n.ast)
+                    if v is not None and v != lab:
+                        continue
+                if b not in seen:
+                    seen.add(b)
+                    stack.append(b)
+        return seen
+    if cmp_rets and ic:
+        r2.require(any(c in reach(True) for c in cmp_rets), eqm, "__eq__ compares objects of its own class",
+                   "%s.__eq__ never reaches the field comparison for an object of the same class (inverted type test): equal objects compare unequal" % ci.name)
+        r2.require(not any(c in reach(False) for c in cmp_rets), eqm, "__eq__ rejects foreign objects",
+                   "%s.__eq__ compares the fields of an object of another class" % ci.name)
 
 
 def _check_pickle(r1, ci, de, ftd, call, node, names, is_tuple, header, srcs, desc, xparam):
